@@ -25,11 +25,11 @@ CHECK = {
            'print_to(s,P,"%s",payload)+append / print_to(s,0,...) / resize(N) shrink and grow / rem(payload) from prefix+payload+suffix / rem absent / copy '
            'on a fresh String, each with the same libc oracle (non-trivial there: N or P+N within one of a power of two >= 64)'),
   'bounds': {
-    'quick': 'content over {a,b} up to length 5 (gcc) and up to length 4 (ASan+UBSan; 3 with aliased operands); operands = all 7 strings of length <= 2; resize(n) for n <= len+2; print_to at every pos <= len, plus (pct=1) print_to with a literal "%%" alone / leading / trailing / doubled / between two conversions at the end and at 0, and (pct=2, gcc) %$ / show_to of the String "%" into the target (content then over {a,b,%,"}); light mode {a,b} up to 4 (gcc) and 3 (ASan); ladder (hash asked right before and right after every operation): payload lengths 0..300 x prefix lengths {0,1,5,127,128} x 13 operations, plus 18 String arguments (15 containing %) shown by %$ / show_to / "<%$>" / "%$%$" at every position of an 8-character and of the empty target (gcc and ASan+UBSan)',
-    'thorough': 'content over {a,b,c} up to length 6 with operands of length <= 2 (13), {a,b,c} up to 5 and {a,b} up to 8 with operands of length <= 3; ASan+UBSan: {a,b} up to 6 and {a,b,c} up to 4; light mode {a,b,c} up to 4, {a,b} up to 6, ASan {a,b} up to 4; ladder: payload lengths 0..1100 (crossing 64, 128, 256, 512, 1024 and neighbours) x the same prefixes and operations',
+    'quick': 'content over {a,b} up to length 5 (gcc) and up to length 4 (ASan+UBSan; 3 with aliased operands); operands = all 7 strings of length <= 2; resize(n) for n <= len+2; print_to at every pos <= len, plus (pct=1) print_to with a literal "%%" alone / leading / trailing / doubled / between two conversions at the end and at 0, and (pct=2, gcc) %$ / show_to of the String "%" into the target (content then over {a,b,%,"}); byte alphabets {C3,AF} up to 5, {80,BF,FF} up to 4, ASan {C3,AF} up to 3; light mode {a,b} up to 4 (gcc) and 3 (ASan); ladder (hash asked right before and right after every operation): payload lengths 0..300 x prefix lengths {0,1,5,127,128} x 13 operations, plus 18 String arguments (15 containing %) shown by %$ / show_to / "<%$>" / "%$%$" at every position of an 8-character and of the empty target (gcc and ASan+UBSan)',
+    'thorough': 'content over {a,b,c} up to length 6 with operands of length <= 2 (13), {a,b,c} up to 5 and {a,b} up to 8 with operands of length <= 3; ASan+UBSan: {a,b} up to 6 and {a,b,c} up to 4; byte alphabets {C3,AF} up to 7, {C3,AF,FF,a} up to 5, ASan {C3,AF,80} up to 4; light mode {a,b,c} up to 4, {a,b} up to 6, ASan {a,b} up to 4; ladder: payload lengths 0..1100 (crossing 64, 128, 256, 512, 1024 and neighbours) x the same prefixes and operations',
   },
   'assumptions': [
-    'contents over a 2- or 3-letter alphabet represent all contents (String code treats bytes uniformly; cmp is additionally evaluated against bytes below/above the alphabet and >= 0x80)',
+    'contents over a 2- to 4-letter alphabet represent all contents; besides {a,b,c} the alphabets {0xC3,0xAF} (a UTF-8 sequence and its halves), {0x80,0xBF,0xFF} and mixtures are explored, and the length ladder is repeated with a payload of multi-byte UTF-8 sequences, lone continuation bytes and 0xFE/0xFF: len is the BYTE length libc strlen gives',
     'resize(n > len): the property does not fix the padding; required are NUL termination inside the allocation, room for n characters and the old content as a prefix (this implementation pads with NUL, i.e. the C string is unchanged)',
     'rem of an absent substring: the string must be unchanged; an exception is optional but must be ValueError or KeyError',
     'aliased arguments (the operand IS the target: assign(s,s), concat(s,s), rem(s,s)) are the limiting case of "equal in value to the target"; they are explored by separate *-alias instances (alias=1) so that they can be dropped if aliasing is ruled out of scope',
@@ -48,6 +48,12 @@ CHECK = {
       # "light" mode: hash(s) is an operation of the alphabet (not a query of the state oracle); the state key carries the length at which it was last asked
       T('ab4-hashop', 'base', 'alpha=2', 'maxlen=4', 'hashop=1'),
       T('ab3-hashop-asan', 'asan', 'alpha=2', 'maxlen=3', 'hashop=1'),
+      # alphabets of high bytes: the UTF-8 sequence C3 AF and its halves; lone continuation bytes and 0xFF
+      T('c3af-5', 'base', 'bytes=c3af', 'maxlen=5'),
+      T('80bfff-4', 'base', 'bytes=80bfff', 'maxlen=4'),
+      T('c3af-3-asan', 'asan', 'bytes=c3af', 'maxlen=3'),
+      T('ladder-hi', 'base', 'mode=ladder', 'maxn=300', 'filler=hi', 'showargs=0'),
+      T('ladder-hi-asan', 'asan', 'mode=ladder', 'maxn=300', 'filler=hi', 'showargs=0'),
       T('ladder', 'base', 'mode=ladder', 'maxn=300'),
       T('ladder-asan', 'asan', 'mode=ladder', 'maxn=300'),
     ],
@@ -64,6 +70,11 @@ CHECK = {
       T('abc4-hashop', 'base', 'alpha=3', 'maxlen=4', 'hashop=1'),
       T('ab6-hashop', 'base', 'alpha=2', 'maxlen=6', 'hashop=1'),
       T('ab4-hashop-asan', 'asan', 'alpha=2', 'maxlen=4', 'hashop=1'),
+      T('c3af-7', 'base', 'bytes=c3af', 'maxlen=7'),
+      T('c3afff61-5', 'base', 'bytes=c3afff61', 'maxlen=5'),
+      T('c3af80-4-asan', 'asan', 'bytes=c3af80', 'maxlen=4'),
+      T('ladder-hi', 'base', 'mode=ladder', 'maxn=1100', 'filler=hi', 'showargs=0'),
+      T('ladder-hi-asan', 'asan', 'mode=ladder', 'maxn=1100', 'filler=hi', 'showargs=0'),
       T('ladder', 'base', 'mode=ladder', 'maxn=1100'),
       T('ladder-asan', 'asan', 'mode=ladder', 'maxn=1100'),
     ],
